@@ -82,8 +82,8 @@ PGrid(q) == {<<FromNat(k), FromNat(q)>> : k \in 0..q}
 PEdge == {<<<<1>>, E12>>, <<Sub(E12, <<1>>), E12>>}
 BinPQuick == PGrid(20) \cup PEdge
 BinPThorough == PGrid(100) \cup PEdge
-BinNQuick == (0..20) \cup {21, 33, 47}
-BinNThorough == (0..60) \cup {100}
+BinNQuick == (0..20) \cup {21, 33, 47, 64}
+BinNThorough == (0..70) \cup {100, 128}
 HypNQuick == 2..16
 HypNThorough == (2..40) \cup {50, 64}
 =============================================================================
